@@ -435,9 +435,13 @@ def rule_null(ctx, rep):
         r.ok("LspProject::tokenize|Ok only when diagnostics empty", where)
     else:
         r.finding("LspProject::tokenize|partial-list", where, "an Ok token list can be returned although the tokenizer reported diagnostics")
-    hb = ctx.prog.get("ironplcc::lsp::LspServer::handle_request")
-    if hb:
-        h = hb[0]
+    # the function of the server that asks for the tokens: handle_request itself, or the helper it hands the request to
+    hbs = [h for h in ctx.prog.bodies.values() if norm(h.id).startswith("ironplcc::lsp::") and "::test" not in norm(h.id)
+           and any(c.callee == LP + "LspProject::tokenize" for c in h.calls())]
+    if not hbs:
+        r.finding("handle_request|no-tokenize", "plc2x/src/lsp.rs", "no function of the language server calls LspProject::tokenize (anchor moved)")
+    for h in hbs:
+        hname = norm(h.id).split("::")[-1]
         good = False
         for i in sorted(h.reachable(0)):
             si = switch_info(h, i)
@@ -470,9 +474,9 @@ def rule_null(ctx, rep):
                                     if in_err and all(d_[0] == "stmt" and d_[3][0] == "agg" and d_[3][1].get("variant") == "None" for d_ in in_err) and not after:
                                         good = True
         if good:
-            r.ok("handle_request|Err => None result", "%s:%d" % (h.f["file"], h.f["line"]))
+            r.ok("%s|Err => None result" % hname, "%s:%d" % (h.f["file"], h.f["line"]))
         else:
-            r.finding("handle_request|Err-arm", "%s:%d" % (h.f["file"], h.f["line"]), "the Err arm of tokenize does not answer with a null result")
+            r.finding("%s|Err-arm" % hname, "%s:%d" % (h.f["file"], h.f["line"]), "the Err arm of tokenize does not answer with a null result")
 
 
 VEC_DROPPERS = ("dedup", "dedup_by", "dedup_by_key", "retain", "retain_mut", "truncate", "remove", "swap_remove", "pop", "drain", "clear", "split_off",
